@@ -90,6 +90,8 @@ struct Inst {
     /// second removal (concrete per instance; n0 = none) and whether the trailing update/removal pair runs
     rm2: usize,
     tail: bool,
+    /// an extra edge-less node (id n0) exists from the start, so that the matrix grows while removed ids are still vacant
+    spare: bool,
 }
 
 fn listed(i: &Inst, a: usize, b: usize) -> bool {
@@ -141,6 +143,13 @@ macro_rules! history {
             }
             m.node[v] = true;
         }
+        if inst.spare {
+            let x = g.add_node(99);
+            if x.index() != inst.n0 {
+                bad.push(format!("spare node got id {}", x.index()));
+            }
+            m.node[inst.n0] = true;
+        }
         for a in 0..inst.n0 {
             for b in 0..inst.n0 {
                 if !inst.directed && b < a {
@@ -169,7 +178,10 @@ macro_rules! history {
         }
         // new nodes: id reuse, then growth
         let mut news = vec![];
-        for k in 0..inst.new_nodes {
+        if inst.spare {
+            news.push(inst.n0);
+        }
+        for k in 0..(if inst.spare { inst.new_nodes.saturating_sub(1) } else { inst.new_nodes }) {
             let y = g.add_node(100 + k as u8);
             if y.index() >= MAXN || m.node[y.index()] {
                 bad.push(format!("add_node returned a live or huge id {}", y.index()));
@@ -323,7 +335,7 @@ fn run_history(inst: &Inst, ch: &mut dyn Chooser) -> Vec<String> {
 
 impl Harness for Inst {
     fn name(&self) -> String {
-        format!("matrix/{}/{}/cap{}/n{}+{}/rm2_{}/tail{}", if self.directed { "di" } else { "un" }, if self.notzero { "notzero" } else { "option" }, self.cap0, self.n0, self.new_nodes, self.rm2, self.tail as u8)
+        format!("matrix/{}/{}/cap{}/n{}+{}/rm2_{}/tail{}", if self.directed { "di" } else { "un" }, if self.notzero { "notzero" } else { "option" }, self.cap0, self.n0, self.new_nodes, self.rm2, format!("{}{}", self.tail as u8, if self.spare { "/spare" } else { "" }))
     }
     fn bounds(&self) -> String {
         let (b, i) = names(self);
@@ -381,13 +393,17 @@ fn make(tier: &str, _seed: u64) -> Vec<Box<dyn Harness>> {
         (false, true, 3, 3, 2),
     ] {
         for (rm2, tail) in [(n0, false), (2, true)] {
-            v.push(Box::new(Inst { directed, notzero, cap0, n0, new_nodes, rm2, tail }));
+            v.push(Box::new(Inst { directed, notzero, cap0, n0, new_nodes, rm2, tail, spare: false }));
         }
+        // growth while two removed ids are still vacant
+        v.push(Box::new(Inst { directed, notzero, cap0, n0, new_nodes, rm2: 1, tail: false, spare: true }));
+        v.push(Box::new(Inst { directed, notzero, cap0, n0, new_nodes, rm2: 0, tail: true, spare: true }));
     }
     if thorough {
         for &(directed, notzero, cap0, n0, new_nodes) in &[(true, false, 0usize, 4usize, 3usize), (true, false, 5, 4, 3), (false, false, 4, 4, 3), (true, true, 0, 4, 2), (false, true, 0, 4, 2), (true, false, 8, 4, 2)] {
             for (rm2, tail) in [(n0, false), (2, true), (1, false), (0, true)] {
-                v.push(Box::new(Inst { directed, notzero, cap0, n0, new_nodes, rm2, tail }));
+                v.push(Box::new(Inst { directed, notzero, cap0, n0, new_nodes, rm2, tail, spare: false }));
+                v.push(Box::new(Inst { directed, notzero, cap0, n0, new_nodes, rm2, tail, spare: true }));
             }
         }
     }
@@ -396,7 +412,7 @@ fn make(tier: &str, _seed: u64) -> Vec<Box<dyn Harness>> {
 
 fn selftest() -> Result<String, String> {
     // a plain concrete history agrees with the model (all choices false / none)
-    let i = Inst { directed: true, notzero: false, cap0: 0, n0: 4, new_nodes: 2, rm2: 4, tail: false };
+    let i = Inst { directed: true, notzero: false, cap0: 0, n0: 4, new_nodes: 2, rm2: 4, tail: false, spare: false };
     let m = Model::new();
     struct Zero;
     impl Chooser for Zero {
